@@ -320,6 +320,30 @@ def main():
         o = run_cases(drv, [w])[0]
         if not isinstance(o, dict) or o.get("creations") != 1 or o.get("visible_v") != 1 or o.get("visible_u") != 1:
             ck.violation("two first requests after start-up, the second arriving between ensureStorage's nil check and its assignment: %s" % canon(o)[:300], {"case": w, "impl": o}, tag="lazy-storage")
+    # the storage cannot be opened when the very first request arrives, and can afterwards: the first client gets an error, the others
+    # (other locations) and its own retry are served as when they run alone
+    for st in ("indexed", "linear"):
+        w = {"kind": "c11.storage_outage", "state": st}
+        o = run_cases(drv, [w])[0]
+        ck.count(w)
+        later = (o or {}).get("later") if isinstance(o, dict) else None
+        want = [{"ok": "fb"}, {"ok": "{\"k\":2}"}, {"ok": "fa"}, {"ok": "{\"k\":1}"}]
+        if not isinstance(later, list) or (o.get("first") or {}).get("err") != "error" or canon(later) != canon(want):
+            ck.violation("a storage outage at the first request of one client (bolt file not yet creatable) changes what the other clients get afterwards (%s state): first=%s later=%s" % (
+                st, canon((o or {}).get("first") if isinstance(o, dict) else o)[:160], canon(later)[:300]), {"case": w, "impl": o}, tag="storage-outage")
+    # locations whose rules have the same script text but name a library that is different code in each location: what a location's
+    # scripts return is what they return when the process serves that location only (each "alone" run is a process of its own)
+    for st in ("indexed", "linear"):
+        both = run_cases(drv, [{"kind": "c11.libraries", "order": ["A", "B", "A"], "state": st}])[0]
+        alone = {n: run_cases(drv, [{"kind": "c11.libraries", "order": [n], "state": st}])[0] for n in ("A", "B")}
+        ck.count({"libraries": st})
+        for n in ("A", "B"):
+            a = ((alone[n] or {}).get("values") or {}).get(n)
+            b = ((both or {}).get("values") or {}).get(n)
+            if a is None or canon(a) != canon(b):
+                ck.violation("scripts of location %s that use a library return %s when the process has also served another location whose library of that name is other code, and %s alone (%s state)" % (
+                    n, canon(b)[:160], canon(a)[:160], st), {"case": {"kind": "c11.libraries", "order": ["A", "B", "A"], "state": st}, "impl": both, "alone": alone[n]}, tag="libraries")
+                break
     for cls, n in known_hits.items():
         ck.note("occurrences in known class %s: %d" % (cls, n))
     if known_hits.get("lazy-storage"):
